@@ -15,7 +15,20 @@ EXHAUSTIVE = {"quick": "MARKS(n) n<=3: all graphs, all ordered pairs, all target
 TRUSTED = ["MixedEdgeGraph.neighbors / has_edge taken at face value", "model and oracle compared as sorted lists of paths"]
 ASSUMPTIONS = ["default edge-type names", "int labels (label families: C15)",
                "pairs carry one of the eight kinds of the quantifier (no lone circle mark)"]
-LEVEL_TEXT = "set below"
+LEVEL_TEXT = ("All clauses are unbounded Coq theorems (Props/C16.v, statements in C16/Spec.v) about the executable model "
+              "C16/Model.v: is_semi_spec (is_semi_directed_path decides the definition), semi_enum_exact (for every graph with a "
+              "duplicate-free node list, source, target set and cutoff the enumeration contains each semi-directed simple path to a "
+              "target with at most cutoff edges exactly once and nothing else), semi_enum_perm (Permutation with the brute-force "
+              "filter over all simple paths), semi_api_ok / semi_cutoff_none (source in targets, cutoff None = |V|-1 = no restriction), "
+              "poss_desc_exact / poss_anc_exact (closure = s plus the nodes joined to s by a semi-directed path, by closure_spec and "
+              "path shortening), semi_edge_marks (on graphs without a lone circle mark a step is 'adjacent and no arrowhead at the "
+              "near end'). The link from the model to /repo is differential correspondence (tie K): sorted multiset of yielded paths, "
+              "is_semi_directed_path booleans, both ancestry sets, exhaustively on MARKS(n) n<=3 and on sampled n=4..7 graphs.")
+LEVEL_NOTE = ("The model is the behaviour the property demands; /repo before fixes/C16-semi-directed-cutoff-filter.patch yields "
+              "non-semi-directed paths in the len(visited)==cutoff branch (0->1<-2, default cutoff) and is reported as VIOLATION. "
+              "Trusted: Coq kernel incl. vm_compute, extraction + driver.ml, the Python harness; networkx/MixedEdgeGraph views "
+              "(neighbors, has_edge) are taken at face value. Lone circle marks (-o) are outside the quantifier and not generated.")
+TECHNIQUE = "Coq proof (model = spec, unbounded, all clauses) + extracted-model correspondence on exhaustive small and seeded random graphs"
 SPOT_N = 12
 
 
